@@ -237,6 +237,16 @@ func (proof *RangeProof) _computeRootHash() (rootHash []byte, treeEnd bool, err 
 	// Returns the (possibly intermediate, possibly root) hash.
 	COMPUTEHASH = func(path PathToLeaf, rightmost bool) (hash []byte, treeEnd bool, done bool, err error) {
 
+		// An inner node carries the hash of exactly one child, the other child being
+		// the one the path continues into. ProofInnerNode.Hash only covers the left
+		// hash when both are set, so a right hash next to it would be followed below
+		// without being bound by the root hash.
+		for _, pin := range path {
+			if len(pin.Left) > 0 && len(pin.Right) > 0 {
+				return nil, false, false, errors.Wrap(ErrInvalidProof, "inner node with both left and right child hashes")
+			}
+		}
+
 		// Pop next leaf.
 		nleaf, rleaves := leaves[0], leaves[1:]
 		leaves = rleaves
